@@ -209,3 +209,8 @@ def f_walrus(a):
 
 def f_bool_int(a):
     return (bool(a), not a, not not a, bool('') , bool('x'), len('abc'), str(a), str(None), str(True))
+
+
+def f_bits(a):
+    m = 4 | 8
+    return (a & 4, a & 12, a & 5, a & 255, (a & m) == 4, (a & m) == m, 1 << 3, 6 ^ 3)
